@@ -55,6 +55,10 @@ type Violation struct {
 	Decisions  []int             `json:"decisions"`
 	Count      int               `json:"count"`
 	PanicMsg   string            `json:"panic_msg,omitempty"`
+	// Alts: further counterexamples of the same assertion from other paths (at most 4). Under a
+	// contract model the solver's witness for the modelled function's result need not be what the
+	// real function returns for those inputs; the native replay then tries the alternatives too.
+	Alts []*Violation `json:"alts,omitempty"`
 	PkgDir     string            `json:"pkg_dir,omitempty"`
 	ReplayFile string            `json:"replay_file,omitempty"`
 	ReplayNote string            `json:"replay_note,omitempty"`
@@ -290,6 +294,11 @@ func (ex *Explorer) noteViolation(c *Ctx, key, msg string, m Model) {
 	for _, v := range ex.res.Violations {
 		if v.Key == key {
 			v.Count++
+			if len(v.Alts) < 4 {
+				in, order := ex.inputsOf(c, m)
+				v.Alts = append(v.Alts, &Violation{Harness: ex.harness, Key: key, Msg: msg, Inputs: in, Order: order,
+					Decisions: append([]int{}, c.trace...), Count: 1, Tier: ex.Tier, Log: append([]string{}, c.log...)})
+			}
 			return
 		}
 	}
